@@ -632,6 +632,20 @@ def elem_op(op, x, y):
     raise Unsupported(f"array operator {op}")
 
 
+def write_back(arr):
+    """After an in-place update of `arr`: if it is a view (basic slice) of another ndarray, the update is the base's too."""
+    v = getattr(arr, "view_of", None)
+    if v is None:
+        return
+    base, lo = v
+    if lo is None or not arr.concrete_len() or not base.concrete_len():
+        raise Unsupported("in-place write through a numpy view with symbolic bounds")
+    els = base.materialise()
+    for k in range(arr.length):
+        els[lo + k] = arr.get(k)
+    write_back(base)
+
+
 def _snap(a):
     """A lazily represented array captured by a derived (lazy) array must be the array AS IT IS NOW: numpy computes
     eagerly, so a later in-place update of the operand must not show through the result."""
